@@ -20,7 +20,9 @@ def set_load_factor(lf: int) -> None:
 
 
 def print_model(m) -> str:
-    return ''.join(t.raw_text for t in m.tokens)
+    """What the REAL printer writes for the model."""
+    from autobean_refactor import printer
+    return printer.print_model(m, io.StringIO()).getvalue()
 
 
 class Fail(Exception):
